@@ -159,6 +159,31 @@ SIMW_FN __m256i _mm256_permute2f128_si256(__m256i a, __m256i b, int imm)
 SIMW_FN __m256i _mm256_unpacklo_pd(__m256i a, __m256i b) { __m256i r; r.v[0] = a.v[0]; r.v[1] = b.v[0]; r.v[2] = a.v[2]; r.v[3] = b.v[2]; return r; }
 SIMW_FN __m256i _mm256_unpackhi_pd(__m256i a, __m256i b) { __m256i r; r.v[0] = a.v[1]; r.v[1] = b.v[1]; r.v[2] = a.v[3]; r.v[3] = b.v[3]; return r; }
 
+
+// ---- further AVX2 intrinsics an edit might reach for (lane-granular ones are width independent)
+SIMW_FN __m256i _mm256_setzero_si256(void) { __m256i r; for (int i = 0; i < 4; i++) r.v[i] = 0; return r; }
+SIMW_FN __m256i _mm256_permute4x64_epi64(__m256i a, int imm) { __m256i r; for (int i = 0; i < 4; i++) r.v[i] = a.v[(imm >> (2 * i)) & 3]; return r; }
+SIMW_FN __m256i _mm256_unpacklo_epi64(__m256i a, __m256i b) { return _mm256_unpacklo_pd(a, b); }
+SIMW_FN __m256i _mm256_unpackhi_epi64(__m256i a, __m256i b) { return _mm256_unpackhi_pd(a, b); }
+SIMW_FN __m256i _mm256_blend_epi64_(__m256i a, __m256i b, int imm) { __m256i r; for (int i = 0; i < 4; i++) r.v[i] = ((imm >> i) & 1) ? b.v[i] : a.v[i]; return r; }
+SIMW_FN __m256i _mm256_blendv_epi8(__m256i a, __m256i b, __m256i m) { __m256i r; for (int i = 0; i < 4; i++) r.v[i] = ((a.v[i] & ~m.v[i]) | (b.v[i] & m.v[i])) & simw::LM; return r; }
+SIMW_FN __m256i _mm256_cmpeq_epi64(__m256i a, __m256i b) { __m256i r; for (int i = 0; i < 4; i++) { bool e = (a.v[i] & simw::LM) == (b.v[i] & simw::LM); simw::sigbit(i, e); r.v[i] = e ? simw::LM : 0; } return r; }
+SIMW_FN __m256i _mm256_shuffle_epi32(__m256i a, int imm)
+{
+    // per 128-bit lane: four half-word elements e0..e3 = (lo(v0), hi(v0), lo(v1), hi(v1))
+    __m256i r;
+    for (int l = 0; l < 2; l++)
+    {
+        uint64_t e[4] = {simw::lo(a.v[2 * l]), simw::hi(a.v[2 * l]), simw::lo(a.v[2 * l + 1]), simw::hi(a.v[2 * l + 1])};
+        uint64_t o[4];
+        for (int i = 0; i < 4; i++) o[i] = e[(imm >> (2 * i)) & 3];
+        r.v[2 * l] = simw::mk(o[1], o[0]);
+        r.v[2 * l + 1] = simw::mk(o[3], o[2]);
+    }
+    return r;
+}
+SIMW_FN long long _mm256_extract_epi64(__m256i a, int i) { return (long long)a.v[i & 3]; }
+
 // ------------------------------------------------------------------ 512-bit
 SIMW_FN __m512i _mm512_set_epi64(long long e7, long long e6, long long e5, long long e4, long long e3, long long e2, long long e1, long long e0)
 {
@@ -250,4 +275,42 @@ SIMW_FN __m512i _mm512_unpackhi_pd(__m512i a, __m512i b)
     for (int k = 0; k < 4; k++) { r.v[2 * k] = a.v[2 * k + 1]; r.v[2 * k + 1] = b.v[2 * k + 1]; }
     return r;
 }
+
+// ---- further AVX-512 intrinsics an edit might reach for
+SIMW_FN __m512i _mm512_setzero_si512(void) { __m512i r; for (int i = 0; i < 8; i++) r.v[i] = 0; return r; }
+SIMW_FN __m512i _mm512_permutex_epi64(__m512i a, int imm) { __m512i r; for (int h = 0; h < 2; h++) for (int i = 0; i < 4; i++) r.v[4 * h + i] = a.v[4 * h + ((imm >> (2 * i)) & 3)]; return r; }
+SIMW_FN __m512i _mm512_permutexvar_epi64(__m512i idx, __m512i a) { __m512i r; for (int i = 0; i < 8; i++) r.v[i] = a.v[idx.v[i] & 7]; return r; }
+SIMW_FN __m512i _mm512_shuffle_i64x2(__m512i a, __m512i b, int imm)
+{
+    __m512i r;
+    for (int k = 0; k < 4; k++) { const uint64_t *s = (k < 2) ? a.v : b.v; int sel = (imm >> (2 * k)) & 3; r.v[2 * k] = s[2 * sel]; r.v[2 * k + 1] = s[2 * sel + 1]; }
+    return r;
+}
+SIMW_FN __m512i _mm512_alignr_epi64(__m512i a, __m512i b, int imm) { __m512i r; for (int i = 0; i < 8; i++) { int j = i + (imm & 7); r.v[i] = j < 8 ? b.v[j] : a.v[j - 8]; } return r; }
+SIMW_FN __m512i _mm512_unpacklo_epi64(__m512i a, __m512i b) { return _mm512_unpacklo_pd(a, b); }
+SIMW_FN __m512i _mm512_unpackhi_epi64(__m512i a, __m512i b) { return _mm512_unpackhi_pd(a, b); }
+SIMW_FN __m512i _mm512_mask_mov_epi64(__m512i src, __mmask8 k, __m512i a) { __m512i r; SIMW_LOOP8(((k >> i) & 1) ? a.v[i] : src.v[i]); return r; }
+SIMW_FN __m512i _mm512_maskz_mov_epi64(__mmask8 k, __m512i a) { __m512i r; SIMW_LOOP8(((k >> i) & 1) ? a.v[i] : 0); return r; }
+SIMW_FN __m512i _mm512_mask_blend_epi64(__mmask8 k, __m512i a, __m512i b) { __m512i r; SIMW_LOOP8(((k >> i) & 1) ? b.v[i] : a.v[i]); return r; }
+SIMW_FN __mmask8 _mm512_cmpeq_epu64_mask(__m512i a, __m512i b) { unsigned m = 0; for (int i = 0; i < 8; i++) { bool g = (a.v[i] & simw::LM) == (b.v[i] & simw::LM); simw::sigbit(i, g); m |= (unsigned)g << i; } return (__mmask8)m; }
+SIMW_FN __mmask8 _mm512_cmpneq_epu64_mask(__m512i a, __m512i b) { return (__mmask8)~_mm512_cmpeq_epu64_mask(a, b); }
+SIMW_FN __m256i _mm512_castsi512_si256(__m512i a) { __m256i r; for (int i = 0; i < 4; i++) r.v[i] = a.v[i]; return r; }
+SIMW_FN __m256i _mm512_extracti64x4_epi64(__m512i a, int h) { __m256i r; for (int i = 0; i < 4; i++) r.v[i] = a.v[4 * (h & 1) + i]; return r; }
+SIMW_FN __m512i _mm512_castsi256_si512(__m256i a) { __m512i r; for (int i = 0; i < 8; i++) r.v[i] = i < 4 ? a.v[i] : 0; return r; }
+SIMW_FN __m512i _mm512_inserti64x4(__m512i a, __m256i b, int h) { __m512i r = a; for (int i = 0; i < 4; i++) r.v[4 * (h & 1) + i] = b.v[i]; return r; }
+SIMW_FN __m512i _mm512_broadcast_i64x4(__m256i a) { __m512i r; for (int i = 0; i < 8; i++) r.v[i] = a.v[i & 3]; return r; }
+SIMW_FN __m512i _mm512_shuffle_epi32(__m512i a, int imm)
+{
+    __m512i r;
+    for (int l = 0; l < 4; l++)
+    {
+        uint64_t e[4] = {simw::lo(a.v[2 * l]), simw::hi(a.v[2 * l]), simw::lo(a.v[2 * l + 1]), simw::hi(a.v[2 * l + 1])};
+        uint64_t o[4];
+        for (int i = 0; i < 4; i++) o[i] = e[(imm >> (2 * i)) & 3];
+        r.v[2 * l] = simw::mk(o[1], o[0]);
+        r.v[2 * l + 1] = simw::mk(o[3], o[2]);
+    }
+    return r;
+}
+SIMW_FN long long _mm512_reduce_add_epi64(__m512i a) { uint64_t s = 0; for (int i = 0; i < 8; i++) s += a.v[i]; return (long long)(s & simw::LM); }
 #endif
